@@ -141,6 +141,7 @@ def check(F, run, tier):
     run.add([o for o in c10.validations(F, S) if "strength" in o.instance or "validated:ValidateImageMetadata" in o.instance])
     run.add(ic.dimension_refusal(F, S))
     run.add(ic.reader_validations(F, S))
+    run.add(ic.validate_not_stricter(F, S))
     run.add(c08.palette_bound(F, S))
     run.add([o for o in c09.validation_and_orientation(F, S) if "headers-before-allocation" in o.instance or "#validated" in o.instance])
     run.add(ic.invert_scan_lines(F, S))
